@@ -291,6 +291,53 @@ int main(void)
 			int r = conf->remove(&p);
 			result(r < 0 ? "refused" : "ok", r < 0 ? drv_errname(r) : "0");
 		}
+		else if (!strcmp(op, "pshare") && drv_nw == 5) {
+			/* x pshare <sep-hex> <elems> <elems2>: a path is built, COPIED (the copy shares the buffer), the original loses
+			 * its last element, the copy is extended by <elems2>; both are walked: the copy must not be affected */
+			int ok = 1, n, dl;
+			char *save = 0, *tok;
+			if (get_char(drv_w[2], &sep)) { puts("bad-op"); continue; }
+			{
+				xpath p(0, sep, 0);
+				for (tok = strtok_r(drv_w[3], ",", &save); tok; tok = strtok_r(0, ",", &save)) {
+					char *e = get_text(tok, &vlen);
+					size_t i;
+					if (!e) { ok = 0; break; }
+					for (i = 0; i < vlen; i++) if (mpt_path_addchar(&p, (uint8_t) e[i]) < 0 || mpt_path_valid(&p) < 0) ok = 0;
+					if (p.add((int) vlen) < 0) ok = 0;
+					free(e);
+				}
+				if (!ok || p.empty()) { puts("bad-op"); continue; }
+				xpath q(p);
+				dl = p.del();
+				snprintf(out, sizeof(out), "del=%d add=", dl);
+				save = 0;
+				for (tok = strtok_r(drv_w[4], ",", &save); tok; tok = strtok_r(0, ",", &save)) {
+					char *e = get_text(tok, &vlen);
+					size_t i;
+					if (!e) { ok = 0; break; }
+					int cok = 1;
+					for (i = 0; i < vlen; i++) if (mpt_path_addchar(&q, (uint8_t) e[i]) < 0 || mpt_path_valid(&q) < 0) cok = 0;
+					strcat(out, !cok ? "C" : q.add((int) vlen) < 0 ? "E" : "+");   /* C: a character was refused */
+					free(e);
+				}
+				if (!ok) { puts("bad-op"); continue; }
+				for (int which = 0; which < 2; which++) {
+					int first = 1;
+					xpath w(which ? p : q);
+					strcat(out, which ? " p=" : " q=");
+					while (!w.empty()) {
+						size_t before = w.o();
+						if (!w.next()) break;
+						n = (int) (w.o() - before) - 1;
+						put_elems(out, sizeof(out), w.b() + before, (size_t) n, first);
+						first = 0;
+					}
+					if (first) strcat(out, "none");
+				}
+			}
+			result(out, "0");
+		}
 		else if (!strcmp(op, "padd") && drv_nw == 4) {
 			int ok = 1, first = 1, n;
 			char *save = 0, *tok;
